@@ -509,6 +509,9 @@ def run(ctx):
     if ctx["tier"] == "thorough":
         cases += small_scope_cases()
     impl = F.run_impl(IMPL, {"cases": cases})
+    # the executable model lives in proof-free files: build it even when a proof file no longer compiles
+    with F.BuildLock():
+        ok_exec, mk_out = F.make(["C03/NeuronExec.vo"], timeout=600)
     model = F.eval_terms(ID, HEADER, [q_case(c) for c in cases], shard=max(8, min(40, len(cases) // 16 + 1)))
     mismatches, oracle_fail = [], []
     stats = Counter()
